@@ -6,4 +6,4 @@ Extraction "c18_model.ml" py_indices resolve select ser_time ser_getitem ser_add
   sc_getitem sc_add sc_elements lab_getitem lab_add lab_elements par_getitem par_add par_elements
   bm_make bm_getitem bm_get_element bm_add bm_elements bm_eqb bm_runs bm_iter_structures
   bm_to_mapping bm_from_mapping axis_eqb axis_len axis_enc axis_dec to_header get_axis
-  img_save img_load.
+  img_save img_load set_cifti_ext first_cifti_ext.
